@@ -533,8 +533,12 @@ func (c *client) keepalive() {
 
 func (c *client) onPacket(packet *protocol.Packet, err error) {
 	if err != nil {
+		// the dispatcher of a closed conn reports errConnClosed after it has
+		// drained its queue. The conn's close callback (onConnClose) has
+		// already started the recovery; reacting here as well recycled the
+		// freshly re-established connection a second time, and re-dialled
+		// even after the user had closed the client.
 		c.Logger.Errorf("conn receive packet error: %v", err)
-		c.reconnecting()
 		return
 	}
 
